@@ -19,6 +19,7 @@ FUNC = {"new", "ins", "del", "get", "size", "iter", "clone", "mkroot", "load", "
 PROPS = {
     "C01": dict(profiles=[("map", 150, 1500)], tags=FUNC, checks=[], corr={}),
     "C02": dict(profiles=[("versions", 80, 800)], tags=FUNC | {"cursor"}, checks=[], corr={}),
+    "C03": dict(profiles=[], tags={"durable"}, checks=[], corr={}, special="sched"),
     "C04": dict(profiles=[("canon", 120, 1200)], tags={"canon", "canon-height"}, checks=["canon"], corr={"only": {"mkroot", "height"}}),
     "C05": dict(profiles=[("persist", 100, 1000), ("map", 40, 400)], tags=FUNC | {"height"}, checks=[], corr={}),
     "C06": dict(profiles=[("diff", 200, 2000)], tags={"diff"}, checks=[], corr={"only": {"diff"}}),
@@ -32,5 +33,7 @@ PROPS = {
     "C15": dict(profiles=[("diff", 200, 2000)], tags={"reads-diff"}, checks=["linkdiff"], corr={"only": {"difflinks"}, "links_as_sets": True, "loads": "sub"},
                 profile_args={"diff": {"persisted": True}}),
     "C16": dict(profiles=[("persist", 150, 1500)], tags={"reads"}, checks=["point"], corr={"only": {"get", "height"}, "loads": "sub"}),
+    "C17": dict(profiles=[], tags={"crash"}, checks=[], corr={}, special="crash"),
+    "C18": dict(profiles=[], tags={"backend"}, checks=[], corr={}, special="backend"),
     "C19": dict(profiles=[("malformed", 120, 1200)], tags={"reject", "load"}, checks=["reject"], corr={"only": {"load", "mkroot"}, "ignore_others": True}),
 }
